@@ -223,9 +223,82 @@ def r4(ctx):
     ctx.extra["header_lookups"] = len(lookups)
 
 
+def split_join_form(b):
+    """Sibling formulation of normalize_header_value: `value.split(|&c| c == b' ').filter(|w| !w.is_empty())
+    .collect::<Vec<&[u8]>>().join(&b' ')` - the words between spaces, re-joined by one space: leading / trailing / repeated
+    spaces produce empty words, which are dropped. Returns None if the body is not of this form, else the list of
+    deviations (empty = exactly this)."""
+    jn = b.calls(r"slice::<impl \[T\]>::join$")
+    sp = b.calls(r"slice::<impl \[T\]>::split$")
+    if len(jn) != 1 or len(sp) != 1:
+        return None
+    pr = []
+    value = 1
+    # the result is the join, nothing else
+    od0 = b.origin_def({"move": {"local": 0, "proj": []}})
+    if not (od0 and od0[0] == "def" and od0[1]["kind"] == "call" and od0[1]["term"] is jn[0][1]):
+        pr.append("the result is not the join itself")
+    # join(&b' ') / join(&[b' '][..]) / join(b" ")
+    sep = b.slice_op(jn[0][1]["args"][1])
+    sepv = [const_value(k) for k in sep.consts]
+    if not (sepv in ([32], [b" "], [" "]) and not sep.params and not sep.callee_names()):
+        pr.append("the separator is not the single space constant (%s)" % sepv)
+    # joined list = collect of split(value).filter(non-empty)
+    lst = b.origin_def(jn[0][1]["args"][0])
+    hops = 0
+    while lst and lst[0] == "def" and lst[1]["kind"] == "call" and re.search(r"Deref::deref$|as_slice$|AsRef::as_ref$", lst[1]["term"]["callee"]) and hops < 4:
+        lst = b.origin_def(lst[1]["term"]["args"][0])
+        hops += 1
+    if not (lst and lst[0] == "def" and lst[1]["kind"] == "call" and re.search(r"Iterator::collect$", lst[1]["term"]["callee"])):
+        return pr + ["the joined list is not a collect() of the word pipeline"]
+    if mutated_in_place(b, [lst[1]["term"]["dest"]["local"]]):
+        pr.append("the word list is modified between collect() and join()")
+    src, stages = pipeline_of(b, lst[1]["term"]["args"][0])
+    names = [x[0] for x in stages if x[0] != "into_iter"]
+    if not (src and src[0] == "def" and src[1]["kind"] == "call" and src[1]["term"] is sp[0][1]):
+        return pr + ["the word pipeline does not start at value.split(..)"]
+    if names != ["filter"]:
+        pr.append("pipeline stages %s: expected exactly one filter (non-empty words)" % names)
+    else:
+        ft = [x for x in stages if x[0] == "filter"][0][2]
+        ok = False
+        if "summary_operand" in ft:
+            pod = b.origin_def(ft["args"][ft["summary_operand"]])
+            if pod and pod[0] == "def" and pod[1]["kind"] == "assign" and pod[1]["stmt"]["rv"]["k"] == "unop" and pod[1]["stmt"]["rv"].get("op") == "Not":
+                cod = b.origin_def(pod[1]["stmt"]["rv"]["x"])
+                ok = bool(cod and cod[0] == "def" and cod[1]["kind"] == "call" and re.search(r"slice::<impl \[T\]>::is_empty$", cod[1]["term"]["callee"])
+                          and not [c for c in b.slice_op(cod[1]["term"]["args"][0]).callee_names() if not re.search(r"Iterator::next$|IntoIterator::into_iter$|slice::<impl \[T\]>::split$", c)])
+        if not ok:
+            pr.append("the filter predicate is not `!word.is_empty()` on the whole word")
+    # split subject = the parameter as it is; predicate = |c| *c == b' '
+    if b.origin_def(sp[0][1]["args"][0]) != ("param", value) or b.slice_op(sp[0][1]["args"][0]).callee_names():
+        pr.append("split is not applied to the whole value")
+    cd = b.origin_def(sp[0][1]["args"][1])
+    okp = False
+    if cd and cd[0] == "def" and cd[1]["kind"] == "assign" and cd[1]["stmt"]["rv"].get("closure"):
+        kb = b.facts.find_bodies("^" + re.escape(cd[1]["stmt"]["rv"]["closure"]) + "$", include_absorbed=True)
+        if kb and not kb[0].calls() and not cd[1]["stmt"]["rv"]["ops"]:
+            k = kb[0]
+            bins = [st_ for _, _, st_ in k.stmts() if st_["k"] == "assign" and st_["rv"]["k"] == "binop"]
+            if len(bins) == 1 and bins[0]["rv"]["op"] == "Eq" and len(k.live_blocks()) == 1:
+                cs = [const_value(op_const(x)) for x in (bins[0]["rv"]["l"], bins[0]["rv"]["r"]) if op_const(x) is not None]
+                okp = cs == [32] and bins[0]["place"]["local"] in k.slice([0]).locals | {0}
+    if not okp:
+        pr.append("the split predicate is not `byte == b' '`")
+    return pr
+
+
 @M.rule("C11-R5", "shape of normalize_header_value")
 def r5(ctx):
     b = ctx.fn(NHV)
+    sj = split_join_form(b)
+    if sj is not None:
+        ctx.count(4)
+        if sj:
+            yield VIOL("C11-R5", "normalize_header_value/split-join", "split / filter / join formulation deviates: " + "; ".join(sj), where=loc(b.j["span"]))
+        else:
+            yield PASS("C11-R5", "normalize_header_value/split-join", "value.split(b' ').filter(non-empty).collect().join(b' '): words re-joined by single spaces (trims, collapses runs, keeps every other byte)", [loc(b.j["span"])])
+        return
     acc = returned_local(b)
     ctx.count(4)
     d0 = b.defs().get(0, [])
